@@ -215,11 +215,11 @@ fn bytes_of(v: &Value) -> Vec<u8> {
     v.as_array().map(|a| a.iter().map(|x| x.as_u64().unwrap_or(0) as u8).collect()).unwrap_or_default()
 }
 
-fn for_all_strings(alpha: &[u8], maxlen: usize, f: &mut dyn FnMut(&[u8])) {
-    let mut cur: Vec<u8> = vec![];
+fn for_all_strings(pre: &[u8], alpha: &[u8], maxlen: usize, f: &mut dyn FnMut(&[u8])) {
+    let mut cur: Vec<u8> = pre.to_vec();
     fn rec(alpha: &[u8], maxlen: usize, cur: &mut Vec<u8>, f: &mut dyn FnMut(&[u8])) {
         f(cur);
-        if cur.len() == maxlen {
+        if cur.len() >= maxlen {
             return;
         }
         for a in alpha {
@@ -250,11 +250,12 @@ pub fn replay(cases: &[Value], run_guarded: &dyn Fn(&dyn Fn() -> (String, String
     let mut r = Replay { events: vec![], enumerated: 0, explained: 0, accepted: 0, stricter: 0, panics: 0 };
     for c in cases {
         let alpha = bytes_of(&c["alpha"]);
+        let pre = bytes_of(&c["pre"]);
         let maxlen = c["maxlen"].as_u64().unwrap_or(0) as usize;
         match c["k"].as_str() {
             Some("uv") => {
                 let m = bytes_of(&c["m"]);
-                for_all_strings(&alpha, maxlen, &mut |v: &[u8]| {
+                for_all_strings(&pre, &alpha, maxlen, &mut |v: &[u8]| {
                     r.enumerated += 1;
                     let (outcome, wher, tok) = run_guarded(&|| {
                         let o = run_value(&m, v);
@@ -281,7 +282,7 @@ pub fn replay(cases: &[Value], run_guarded: &dyn Fn(&dyn Fn() -> (String, String
                 });
             }
             Some("um") => {
-                for_all_strings(&alpha, maxlen, &mut |m: &[u8]| {
+                for_all_strings(&pre, &alpha, maxlen, &mut |m: &[u8]| {
                     r.enumerated += 1;
                     let (outcome, wher, names) = run_guarded(&|| {
                         let o = run_meta(m);
